@@ -294,3 +294,76 @@ Theorem C02_transpose_pair_pass_sound_all :
     refines (tensor A) teq sem (tg_graph g) (tg_graph (transpose_pair_pass fuel g)) e.
 Proof. exact transpose_pair_pass_sound_all. Qed.
 Print Assumptions C02_transpose_pair_pass_sound_all.
+
+(* ---- both passes, for every graph that is admissible WHEN THE PASS STARTS: what the pass reads (declared dims, one-element
+        flags, payload ranks; for the transpose pass the one-element flags and the uniform-operands property) is preserved by
+        every rewrite (final-environment form of the simulation, ChainSim.sim_env), so nothing semantic is assumed of the
+        intermediate graphs.  For the reshape pass this needed the repair of the stale-annotation defect found on the way
+        (_refresh_elementwise_output_shape(rewired=True) clears an annotation it cannot recompute) and the soundness of
+        _broadcast_shape_dims on the operand lists of a folded chain member (ReshapePairPass.broadcast_dims_data).  For the
+        transpose pass what remains along the loop is purely computational: every action taken is of a proved kind
+        (TransposeRegion.kinds_along, a boolean function of the input graph). *)
+Theorem C02_reshape_pair_step_admissible :
+  forall (A : Type) (sem : string -> list nat -> list (tensor A) -> option (list (tensor A))),
+  (forall op ats vs vs' o, Forall2 teq vs vs' -> sem op ats vs = Some o -> exists o', sem op ats vs' = Some o' /\ Forall2 teq o o') ->
+  sem_reshape_spec A sem ->
+  forall F : string -> list nat -> list A -> A, sem_pointwise_spec A sem F ->
+  forall Fcl : list nat -> tensor A -> A -> A, sem_castlike_spec A sem Fcl -> castlike_type_only A Fcl ->
+  sem_accepts_spec A sem ->
+  forall g g' e ef, ReshapePairPass.admissible A sem g e -> eval (tensor A) sem (pg_nodes g) e = Some ef ->
+    reshape_pair_step g = Some g' -> ReshapePairPass.admissible A sem g' e.
+Proof. exact ReshapePairPass.reshape_pair_step_admissible. Qed.
+Print Assumptions C02_reshape_pair_step_admissible.
+
+Theorem C02_reshape_pair_pass_sound_start :
+  forall (A : Type) (sem : string -> list nat -> list (tensor A) -> option (list (tensor A))),
+  (forall op ats vs vs' o, Forall2 teq vs vs' -> sem op ats vs = Some o -> exists o', sem op ats vs' = Some o' /\ Forall2 teq o o') ->
+  sem_reshape_spec A sem ->
+  forall F : string -> list nat -> list A -> A, sem_pointwise_spec A sem F ->
+  forall Fcl : list nat -> tensor A -> A -> A, sem_castlike_spec A sem Fcl -> castlike_type_only A Fcl ->
+  sem_accepts_spec A sem ->
+  forall fuel g e, ReshapePairPass.admissible A sem g e ->
+    refines (tensor A) teq sem (pg_graph g) (pg_graph (reshape_pair_pass fuel g)) e.
+Proof. exact ReshapePairPass.reshape_pair_pass_sound_start. Qed.
+Print Assumptions C02_reshape_pair_pass_sound_start.
+
+Theorem C02_transpose_pair_action_admissible :
+  forall (A : Type) (sem : string -> list nat -> list (tensor A) -> option (list (tensor A))),
+  (forall op ats vs vs' o, Forall2 teq vs vs' -> sem op ats vs = Some o -> exists o', sem op ats vs' = Some o' /\ Forall2 teq o o') ->
+  sem_transpose_spec A sem op_type ->
+  forall F : string -> list nat -> list A -> A, sem_pointwise_spec_a A sem op_type F ->
+  forall Fcl : list nat -> tensor A -> A -> A, sem_castlike_spec_n A sem op_type Fcl -> castlike_type_only A Fcl ->
+  sem_accepts_spec_a A sem op_type ->
+  forall g act e ef, tadmissible_u A sem g e -> eval (tensor A) sem (tg_nodes g) e = Some ef ->
+    decide_step g = Some act -> proved_kind_all g act = true -> tadmissible_u A sem (apply_taction g act) e.
+Proof. exact transpose_pair_action_admissible. Qed.
+Print Assumptions C02_transpose_pair_action_admissible.
+
+Theorem C02_transpose_pair_pass_sound_start :
+  forall (A : Type) (sem : string -> list nat -> list (tensor A) -> option (list (tensor A))),
+  (forall op ats vs vs' o, Forall2 teq vs vs' -> sem op ats vs = Some o -> exists o', sem op ats vs' = Some o' /\ Forall2 teq o o') ->
+  sem_transpose_spec A sem op_type ->
+  forall F : string -> list nat -> list A -> A, sem_pointwise_spec_a A sem op_type F ->
+  forall Fcl : list nat -> tensor A -> A -> A, sem_castlike_spec_n A sem op_type Fcl -> castlike_type_only A Fcl ->
+  sem_accepts_spec_a A sem op_type ->
+  forall fuel g e, tadmissible_u A sem g e -> kinds_along fuel g = true ->
+    refines (tensor A) teq sem (tg_graph g) (tg_graph (transpose_pair_pass fuel g)) e.
+Proof. exact transpose_pair_pass_sound_start. Qed.
+Print Assumptions C02_transpose_pair_pass_sound_start.
+
+(* ---- a fifth pass verified end to end: remove_redundant_transpose_add_forests_ir (model TransposeAddForestPass.v: the
+        breadth-first walk of _collect_add_transpose_forest, the guard added to /repo after the double-role defect, the region
+        rewrite; soundness TransposeAddForestSound.v, an instance of the region theorem) — for every graph admissible when
+        the pass starts, with no condition on the actions taken *)
+From J2O Require Import TransposeAddForestPass TransposeAddForestSound.
+Theorem C02_transpose_add_forest_pass_sound :
+  forall (A : Type) (sem : string -> list nat -> list (tensor A) -> option (list (tensor A))),
+  (forall op ats vs vs' o, Forall2 teq vs vs' -> sem op ats vs = Some o -> exists o', sem op ats vs' = Some o' /\ Forall2 teq o o') ->
+  sem_transpose_spec A sem op_type ->
+  forall F : string -> list nat -> list A -> A, sem_pointwise_spec_a A sem op_type F ->
+  forall Fcl : list nat -> tensor A -> A -> A, sem_castlike_spec_n A sem op_type Fcl -> castlike_type_only A Fcl ->
+  sem_accepts_spec_a A sem op_type ->
+  forall fuel g e, tadmissible_u A sem g e ->
+    refines (tensor A) teq sem (tg_graph g) (tg_graph (addforest_pass fuel g)) e.
+Proof. exact addforest_pass_sound. Qed.
+Print Assumptions C02_transpose_add_forest_pass_sound.
